@@ -34,7 +34,8 @@ def dispatch_rule(ctx, p):
     for ret in wire.returns_of(r):
         br = wire.enclosing_branches(r, ret)
         v = ret.value
-        if isinstance(v, ast.Call) and isinstance(v.func, ast.Attribute) and norm_text(v.func.value) == "self" and len(v.args) == 1 and norm_text(v.args[0]) == "self.evaluate_func":
+        vargs = (list(v.args) + [k.value for k in v.keywords]) if isinstance(v, ast.Call) else []
+        if isinstance(v, ast.Call) and isinstance(v.func, ast.Attribute) and norm_text(v.func.value) == "self" and len(vargs) == 1 and norm_text(vargs[0]) == "self.evaluate_func":
             tests = [norm_text(i.test) for i, t in br if t]
             for t in tests:
                 if t.startswith("isinstance(self.grid, ") and t.endswith(")"):
@@ -229,7 +230,7 @@ def radial_rule(ctx, p):
     ctx.ob(rule, w.key + ":evaluate", okf, where=w, node=calls[0] if calls else w.node, construct=norm_text(calls[0]) if calls else "", message="the function must be evaluated on the relocated grid")
     # the relocated grid keeps the structure of the input (with_new_array) and the minimum comes from the per-profile config entry
     wn = [c for c in w.calls() if isinstance(c.func, ast.Attribute) and c.func.attr == "with_new_array" and norm_text(c.func.value) == "grid"]
-    ctx.ob(rule, w.key + ":structure", len(wn) == 1 and norm_text(wn[0].args[0]) == moved, where=w, node=wn[0] if wn else w.node, construct=norm_text(wn[0]) if wn else "", message="a structured grid must be rebuilt around the moved coordinates (same mask)")
+    ctx.ob(rule, w.key + ":structure", len(wn) == 1 and norm_text(wn[0].args[0] if wn[0].args else wire.kw(wn[0]).get("array")) == moved, where=w, node=wn[0] if wn else w.node, construct=norm_text(wn[0]) if wn else "", message="a structured grid must be rebuilt around the moved coordinates (same mask)")
     cfg = [norm_text(n.value).replace('"', "'") for n in w.body_nodes() if isinstance(n, ast.Assign) and norm_text(n.targets[0]) == "grid_radial_minimum"]
     ctx.ob(rule, w.key + ":config", cfg == ["conf.instance['grids']['radial_minimum']['radial_minimum'][obj.__class__.__name__]"], where=w, node=w.node, construct=str(cfg), message="the minimum must be the configured value for the profile's class")
 
